@@ -231,12 +231,35 @@ func cssCase(r *vlib.Rng) []vlib.Case {
 	}
 	// two boxes share ONE rule carrying the transform (the declared value is shared by both
 	// elements), with different font sizes, so em arguments resolve differently per element
+	// kind of box carrying the transform: 0 = absolutely positioned block, 1 = in-flow atomic inline
+	// (inline-block / inline-table / inline-flex), 2 = plain inline box (the transform must NOT apply)
+	boxKind := vlib.Pick(r, []int{0, 0, 0, 1, 1, 2})
+	disp := vlib.Pick(r, []string{"inline-block", "inline-block", "inline-flex"})
 	rule := fmt.Sprintf(".t { position:absolute; transform: %s; %s }", strings.Join(parts, " "), origin)
-	boxStyle := func() string {
-		return fmt.Sprintf("left:%dpx; top:%dpx; width:%dpx; height:%dpx; padding:%dpx; border:%dpx solid red; font-size:%dpx",
-			r.Range(0, 300), r.Range(0, 300), r.Range(1, 300), r.Range(1, 200), r.Range(0, 9), r.Range(0, 5), vlib.Pick(r, []int{8, 10, 16, 20, 40}))
+	if boxKind == 1 {
+		rule = fmt.Sprintf(".t { display:%s; transform: %s; %s }", disp, strings.Join(parts, " "), origin)
+	} else if boxKind == 2 {
+		rule = fmt.Sprintf(".t { transform: %s; %s }", strings.Join(parts, " "), origin)
 	}
-	html := `<html><head><style>` + rule + `</style></head><body style="margin:0"><div class=t id=a style="` + boxStyle() + `"></div><div class=t id=b style="` + boxStyle() + `"></div></body></html>`
+	boxStyle := func() string {
+		if boxKind == 0 {
+			return fmt.Sprintf("left:%dpx; top:%dpx; width:%dpx; height:%dpx; padding:%dpx; border:%dpx solid red; font-size:%dpx",
+				r.Range(0, 300), r.Range(0, 300), r.Range(1, 300), r.Range(1, 200), r.Range(0, 9), r.Range(0, 5), vlib.Pick(r, []int{8, 10, 16, 20, 40}))
+		}
+		return fmt.Sprintf("width:%dpx; height:%dpx; padding:%dpx; border:%dpx solid red; font-size:%dpx",
+			r.Range(1, 120), r.Range(1, 80), r.Range(0, 9), r.Range(0, 5), vlib.Pick(r, []int{8, 10, 16, 20, 40}))
+	}
+	tag := "div"
+	open, mid, close := "", "", ""
+	if boxKind != 0 {
+		tag = "span"
+		open, mid, close = `<p style="font: 16px/20px Ahem; margin:0">ab `, ` cd `, ` ef</p>`
+	}
+	inner := ""
+	if boxKind == 2 {
+		inner = "xy"
+	}
+	html := `<html><head><style>` + rule + `</style></head><body style="margin:0">` + open + `<` + tag + ` class=t id=a style="` + boxStyle() + `">` + inner + `</` + tag + `>` + mid + `<` + tag + ` class=t id=b style="` + boxStyle() + `">` + inner + `</` + tag + `>` + close + `</body></html>`
 	var gs []string
 	var pages []*bo.PageBox
 	o := render.Guard(func() {
@@ -251,7 +274,15 @@ func cssCase(r *vlib.Rng) []vlib.Case {
 	}
 	render.Walk(pages[0], func(b bo.Box, d int) {
 		bx := b.Box()
-		if bx.Element != nil && bx.ElementTag() == "div" {
+		id := ""
+		if bx.Element != nil {
+			for _, a := range bx.Element.Attr {
+				if a.Key == "id" {
+					id = a.Val
+				}
+			}
+		}
+		if (id == "a" && len(gs) == 0) || (id == "b" && len(gs) == 1) { // outermost box of each element, in tree order
 			or := bx.Style.GetTransformOrigin()
 			dim := func(d pr.Dimension) string {
 				if d.Unit == pr.Perc {
@@ -264,9 +295,10 @@ func cssCase(r *vlib.Rng) []vlib.Case {
 				dim(or[0]), dim(or[1]), vlib.Q32(fl(bx.Style.GetFontSize().Value))))
 		}
 	})
-	if len(gs) != 2 {
+	if boxKind != 2 && len(gs) != 2 {
 		return nil
 	}
+	tags[fmt.Sprintf("boxkind=%d", boxKind)] = true
 	var rec *render.Recorder
 	o = render.Guard(func() {
 		d, err := render.Render(html, nil, false, true, fonts)
@@ -290,6 +322,10 @@ func cssCase(r *vlib.Rng) []vlib.Case {
 	}
 	for k := range tags {
 		tl = append(tl, k)
+	}
+	if boxKind == 2 { // plain inline boxes: no Transform call beyond the two page-level ones
+		return []vlib.Case{{Kind: "css-inline", Coq: fmt.Sprintf("CCssInline %s", vlib.Bool(len(trs) > 2)),
+			Desc: map[string]interface{}{"html": html, "transform_calls": trs}, Nontrivial: true, Tags: tl}}
 	}
 	// the two boxes are painted in tree order; a singular matrix sends no Transform call for
 	// either box (same function list), so the page has either 2 or 4 Transform events
